@@ -43,7 +43,7 @@ SPELL = {
     "H": ["http", "HTTP", "hTtP"], "Hs": ["https", "HTTPS", "HttpS"],
     "l": ["localhost", "LOCALHOST", "LocalHost"], "i": ["127.0.0.1"],
     "a": [A_HOST, A_HOST.upper(), "App.Example.Com"],
-    "e": ["evil.com", "attacker.example", "EVIL.COM"], "x": ["x", "zz", "wat"], "P": ["vgi"], "8": ["8443"],
+    "e": ["evil.com", "attacker.example", "EVIL.COM"], "x": ["x", "zz", "wat"], "P": ["vgi"], "8": ["8443"], "6": ["::1"],
 }
 
 
@@ -74,6 +74,10 @@ def klass(role: str, loc) -> str:
             return "rt-backslash-in-authority"
         if "a" in loc and "8" in loc and ":" in loc[3:]:
             return "rt-allowlisted-host-other-port"
+        if "[" in loc:
+            return "rt-ipv6-literal"
+        if "@" in loc:
+            return "rt-userinfo"
         if any(t in loc for t in ("l", "i", "a")):
             return "rt-lookalike-host"
         return "rt-other"
@@ -207,16 +211,16 @@ def _run(ctx: Ctx) -> None:
              "TailLen": 2 if quick else 3, "PrefixSchemes": S(["H", "Hs"]), "PrefixSlashes": S(["/", "B"]), "LeadLen": 2 if quick else 3, "HostLen": 2 if quick else 3, "BaseScheme": "H"}
     sanity = ["KindTotal", "WhitespaceInvisible", "BackslashIsSlash", "FragmentIrrelevant", "PathAbsoluteStays",
               "EscapeIsNoDelimiter"]
-    fams = [f + "(0)" for f in ("RtFlat", "RtTails", "RtNeigh", "RtLead", "RtHosts", "OrigFlat", "OrigTails", "OrigNeigh", "OrigLead")]
+    fams = [f + "(0)" for f in ("RtFlat", "RtTails", "RtNeigh", "RtLead", "RtHosts", "RtAuth", "RtV6", "OrigFlat", "OrigTails", "OrigNeigh", "OrigLead")]
     for base in (("H",) if quick else ("H", "Hs")):
-        enumerate_families(ctx, "data", "Url", [f for f in fams if not (quick and "Neigh" in f)],
+        enumerate_families(ctx, "data", "Url", [f for f in fams if not (quick and ("Neigh" in f or "RtAuth" in f))],
                            constants={**small, "BaseScheme": base, **({"TailLen": 2} if base == "Hs" else {})}, invariants=sanity,
                            name=f"Url:model-sanity(base={base})", emit=False)
 
     # ------------------------------------------------------------ 2. TLC: enumerate the case space + reference verdict
     if quick:
         consts = {"FlatAlphabet": S(flat_q), "FlatLen": 3,
-                  "TailAlphabet": S(["e", "l", "a", ":", "/", "B", "@", "8"]), "TailLen": 4,
+                  "TailAlphabet": S(["e", "l", "a", ":", "/", "B", "@", "8", "%", "T"]), "TailLen": 4,
                   "PrefixSchemes": S(["H", "Hs"]), "PrefixSlashes": S(["/"]), "LeadLen": 3, "HostLen": 3, "BaseScheme": "H"}
     else:
         consts = {"FlatAlphabet": S(flat_q), "FlatLen": 4,
@@ -333,8 +337,13 @@ def _run(ctx: Ctx) -> None:
         others = [x for x in pool_acc if x[0]["exp"]["kind"] != "foreign"]
         rng.shuffle(others)
         rng.shuffle(foreign_acc)
-        rejected = [(cj, spell(cj["case"]["s"], 0)) for cj in rng.sample(cases, min(len(cases), e2e_budget // 4))
-                    if cj["case"]["role"] == "orig" or cj["case"]["cfg"] == "noport"]
+        # ... of the rest: half random, half strings the reference sends to a foreign origin (a flow that skips or
+        # weakens validation on ONE path shows up exactly there)
+        acc_keys = {id(x[0]) for x in accepted_cases}
+        e2e_ok = [cj for cj in cases if cj["case"]["role"] == "orig" or cj["case"]["cfg"] == "noport"]
+        rest_foreign = [cj for cj in e2e_ok if cj["exp"]["kind"] == "foreign" and id(cj) not in acc_keys]
+        rejected = [(cj, spell(cj["case"]["s"], 0)) for cj in
+                    rng.sample(e2e_ok, min(len(e2e_ok), e2e_budget // 8)) + rng.sample(rest_foreign, min(len(rest_foreign), e2e_budget // 8))]
         chosen = foreign_acc[: e2e_budget // 2] + others[: e2e_budget // 2] + rejected
         unjudged = {"n": 0}
         for cj, _u0 in chosen:
@@ -356,6 +365,19 @@ def _run(ctx: Ctx) -> None:
                     elif loc.startswith(u + sep + "token="):
                         obs.append({"case": c, "obs": {"via": "fastpath", "accepted": True, "loc": toks + suffix}, "_u": u,
                                     "_kind": cj["exp"]["kind"], "_loc": loc})
+                    else:
+                        unjudged["n"] += 1
+                # logout: the one redirect of the flow that takes no target from the request
+                qu = quote(u, safe="")
+                r = get(client, "/_oauth/logout", f"_vgi_return_to={qu}&next={qu}&return_to={qu}&redirect_uri={qu}",
+                        {**html, "Referer": u if u.isprintable() else "http://svc.test:8000/", "Cookie": f"{pk._AUTH_COOKIE_NAME}={world.token}"})
+                ctx.case(["rt", "noport", u, "logout"])
+                if not isinstance(r, Exception) and r.status_code in (301, 302, 303, 307, 308):
+                    loc = r.headers.get("location", "")
+                    if loc == "/":
+                        obs.append({"case": c, "obs": {"via": "logout", "accepted": True, "loc": ["/"]}, "_u": u, "_kind": cj["exp"]["kind"], "_loc": loc})
+                    elif loc.startswith(u):
+                        obs.append({"case": c, "obs": {"via": "logout", "accepted": True, "loc": toks}, "_u": u, "_kind": cj["exp"]["kind"], "_loc": loc})
                     else:
                         unjudged["n"] += 1
                 # full flow: 401 -> IdP -> callback
